@@ -324,6 +324,30 @@ def run(rep, tier):
                             f'`def __init__({nm}, {nm})` (SyntaxError: duplicate argument)',
                             'sourcer/expressions/class_.py:Class._compile_class_body'))
     shared.entry_closure_rule(rep, mods)
+    # a renaming changes nothing but the name: the generator never classifies a user name by what Python happens to
+    # define (builtins, keywords) - it may reject names by a documented lexical rule, not treat some of them differently
+    rep.rule('NAME-special-case', 'the generator does not consult builtins / keyword tables to decide how a user name is '
+                                  'compiled')
+    n_gen = 0
+    for rel in ['sourcer/translator.py', 'sourcer/grammar.py'] + load.expression_files():
+        tree = load.parse(rel)
+        n_gen += 1
+        for n in ast.walk(tree):
+            mods_ = []
+            if isinstance(n, ast.Import):
+                mods_ = [a.name.split('.')[0] for a in n.names]
+            elif isinstance(n, ast.ImportFrom) and n.module:
+                mods_ = [n.module.split('.')[0]]
+            elif isinstance(n, ast.Name) and n.id == '__builtins__':
+                mods_ = ['builtins']
+            for mname in mods_:
+                if mname in ('builtins', 'keyword'):
+                    rep.oblige(False)
+                    rep.add(Finding('NAME-special-case', rel, mname,
+                                    f'{rel} consults `{mname}` (line {n.lineno}): user names that happen to be Python '
+                                    f'{"builtins" if mname == "builtins" else "keywords"} are compiled differently from '
+                                    f'other names, so renaming a rule, field or variable changes more than the name', rel))
+    rep.count('generator sources examined for name special-casing', n_gen)
     # (iv) the attribute namespace: fields of a user class are instance attributes (constant members class
     # attributes) of a ParsedObject subclass, so every name ParsedObject itself defines must lie outside the user
     # identifier space (leading underscore) - a public helper is shadowed by a field of that name
